@@ -474,6 +474,21 @@ def generate(run_seed, tier_cfg):
 
         args["d0"] = dim_arg(rows, cols, "rows")
         args["d1"] = dim_arg(cols, rows, "columns")
+        for which, dim in (("d0", rows), ("d1", cols)):
+            derived = [e for e in dim["elements"] if e.get("derived")]
+            if dim["type"] == "MR_SUBVAR" and derived and rnd.random() < 0.5:
+                # an analysis keyed by alias that also hides a derived insertion
+                d = json.loads(args[which]["json"])
+                plain = [e for e in dim["elements"] if not e.get("derived") and not e["missing"]]
+                el = d.get("elements") or {}
+                el = {k: v for k, v in el.items() if k != "key"}
+                el["key"] = "alias"
+                if plain:
+                    el[str(rnd.choice(plain)["alias"])] = {"name": "Second response"}
+                d["elements"] = el
+                d["insertions"] = [{"function": "any", "name": derived[0]["subvar_id"], "hide": True,
+                                    "anchor": "top", "args": [1]}]
+                args[which]["json"] = json.dumps(d, separators=(",", ":"))
         args["t0"] = {"kind": "transforms", "compose": {"rows_dimension": "d0", "columns_dimension": "d1"}}
         args["t1"] = {"kind": "transforms", "compose": {"rows_dimension": "d1", "columns_dimension": "d0"}}
         args["t2"] = {"kind": "transforms", "compose": {"rows_dimension": "d0"}}
